@@ -3,7 +3,7 @@
    any schedule = list of session ids).  Property theorems only. *)
 From Coq Require Import ZArith List Bool.
 Import ListNotations.
-Require Import PonyV.Model.C20Opt PonyV.Proofs.C20OptProofs.
+Require Import PonyV.Model.C20Opt PonyV.Proofs.C20OptProofs PonyV.Proofs.C20Serial.
 
 (* The WHERE clause of the UPDATE (Entity._construct_optimistic_criteria_): `col = value read` (IS NULL for None)
    for exactly the attributes with a read bit whose optimistic option (own, else the converter's) is on. *)
@@ -50,6 +50,22 @@ Theorem C20_no_lost_update : forall k sch d pr sched s,
 Proof. exact no_lost_update. Qed.
 Print Assumptions C20_no_lost_update.
 
+(* Serial formulation.  Whenever a session with writes commits successfully - in any reachable state, i.e. after any
+   interleaving with any other sessions - and everything it read from the database is protected by the check (each
+   read bit belongs to an attribute with optimistic checking on; no volatile value flows into a write), the row after
+   its commit is exactly the row obtained by running the session's program p ALONE on the row as it was just before
+   the commit.  By induction over the commits the final row is the serial composition of the committed sessions in
+   commit order.  Reads of unprotected attributes (optimistic=False, float, volatile) are the stated exception. *)
+Theorem C20_serial : forall k sch d pr sched s rest,
+  let stt := run k sch (init d pr) sched in
+  let stt' := step k sch stt s in
+  st (ss stt s) = Active -> progs stt s = Commit :: rest -> st (ss stt' s) = Committed -> has_writes k (ss stt s) ->
+  (forall a, rbits (ss stt s) a = true -> (a < k)%nat /\ a_opt (sch a) = true) ->
+  (forall a b dl, In (Write a (EPlus b dl)) (pr s) -> a_vol (sch b) = false) ->
+  exists p, pr s = p ++ Commit :: rest /\ forall a, sdb stt' a = serial_row k sch (sdb stt) p a.
+Proof. exact commit_is_serial. Qed.
+Print Assumptions C20_serial.
+
 (* Non-vacuity: the classic lost update.  Two sessions run `obj.a = obj.a + 1; commit` on a = 10, interleaved
    read / read / write+commit / write+commit: the first commits (a = 11), the second ends in OptimisticCheckError. *)
 Definition sch2 : list attr := [ {| a_decl := None; a_conv := true; a_vol := false |} ].
@@ -59,4 +75,9 @@ Example C20_nonvacuous :
      [EvObs 0 0 (Some 10%Z) true; EvObs 1 0 (Some 10%Z) true; EvObs 0 0 (Some 10%Z) true;
       EvUpdate 0 [(0%nat, Some 11%Z)] [(0%nat, Some 10%Z)] true; EvEnd 0 Committed;
       EvObs 1 0 (Some 10%Z) true; EvUpdate 1 [(0%nat, Some 11%Z)] [(0%nat, Some 10%Z)] false; EvEnd 1 (Failed E_OPT)]).
+Proof. vm_compute. reflexivity. Qed.
+
+(* serial_row on the same programs: each increment run alone from the row left by the previous commit *)
+Example C20_serial_nonvacuous :
+  map (serial_row 1 (schema_of sch2) (row_of [Some 10%Z]) [Read 0; Write 0 (EPlus 0 1)]) [0%nat] = [Some 11%Z].
 Proof. vm_compute. reflexivity. Qed.
